@@ -18,11 +18,12 @@ import (
 
 	"github.com/go-jose/go-jose/v3/jwt"
 	"github.com/google/go-tpm/legacy/tpm2"
+	"github.com/pomerium/webauthn/fido"
 )
 
 // answerAsk answers one oracle question of the model by calling the *dependency* named in
 // DESIGN §3 directly — never a function of /repo's own logic.
-func answerAsk(kind string, q M) any {
+func answerAsk(d *Driver, kind string, q M) any {
 	switch kind {
 	case "sha256":
 		h := sha256.Sum256(unhx(q["data"].(string)))
@@ -139,6 +140,54 @@ func answerAsk(kind string, q M) any {
 		return M{"bool": hardwareDetailsOracle(unhx(q["der"].(string)))}
 	case "safetyNet":
 		return safetyNetView(unhx(q["raw"].(string)))
+	case "jwsHeaders":
+		tok, err := jwt.ParseSigned(string(unhx(q["raw"].(string))))
+		if err != nil {
+			return nil
+		}
+		return M{"nat": len(tok.Headers)}
+	case "jwsChain":
+		tok, err := jwt.ParseSigned(string(unhx(q["raw"].(string))))
+		if err != nil {
+			return nil
+		}
+		i := int(num(q["i"]))
+		if i >= len(tok.Headers) {
+			return nil
+		}
+		var roots *x509.CertPool
+		switch code := int(num(q["pool"])); {
+		case code == 0:
+			roots = x509.NewCertPool()
+			roots.AppendCertsFromPEM(fido.GlobalSignRootCAPEM)
+		case code == 1:
+			roots = nil
+		default:
+			if code-2 >= len(d.Pools) {
+				return nil
+			}
+			roots = d.Pools[code-2]
+		}
+		chains, err := tok.Headers[i].Certificates(x509.VerifyOptions{Roots: roots})
+		if err != nil || len(chains) == 0 || len(chains[0]) == 0 {
+			return nil
+		}
+		return M{"bytes": hx(chains[0][0].Raw)}
+	case "jwsClaims":
+		tok, err := jwt.ParseSigned(string(unhx(q["raw"].(string))))
+		if err != nil {
+			return nil
+		}
+		leaf, err := x509.ParseCertificate(unhx(q["leaf"].(string)))
+		if err != nil {
+			return nil
+		}
+		var payload fido.MetadataBLOBPayload
+		if err := tok.Claims(leaf.PublicKey, &payload); err != nil {
+			return nil
+		}
+		b, _ := json.Marshal(payload)
+		return M{"bytes": hx(b)}
 	}
 	panic("unknown ask " + kind)
 }
